@@ -291,7 +291,7 @@ static void adversary(unsigned long long& unit)
 int main(int argc, char** argv)
 {
 	mc::init(argc, argv);
-	if(mc::ctx().replay) { printf("%s\n", mc::ctx().replay_case.c_str()); return 0; }
+	if(mc::ctx().replay) { printf("%s\n(no single-case replay for this part; use ./vcheck --replay <file>, which re-runs the enumeration for this key)\n", mc::ctx().replay_case.c_str()); return 0; }
 	silence();
 	mc::bound("rule", "M3: complete products polynomial x interval x epsilon x depth, and estimator-regular families admitted by a closed-form filter max|f''''|/min|f''''|<=4; M2: executions of Integrate under harness-chosen answers (states = choice points, transitions = integrand evaluations); non-trivial = degree>=4 quintics, non-bottomed regular cases, distinct (result, evaluation count) outcomes");
 	unsigned long long unit = 0;
